@@ -50,7 +50,8 @@ LEVEL_TEXT = ("Lean 4 theorems for every world size n, workload, fault plan, sch
               "raising; all of it for every history of rounds with pairwise distinct barrier prefixes sharing one store, whatever "
               "earlier rounds did; plus two decide-checked witnesses that with a reused prefix the statements fail (why the D7 "
               "repair is needed). The model is tied to the real code on every run by replaying deterministic-scheduler histories of "
-              "the real threads in the Lean driver, and the property oracle is evaluated on the same histories.")
+              "the real threads in the Lean driver, and the property oracle is evaluated on the same histories."
+              ' Two overlapping pending snapshots with different barrier prefixes, interleaved in any way, each behave exactly as if run alone (C13_concurrent_independent), so the single-attempt theorems apply to each.')
 LEVEL_NOTE = ("Trusted: Lean kernel (+propext, Classical.choice, Quot.sound), the hand model lean/TsModel/{Barrier,Commit}.lean, "
               "harness/detsim.py. Not modelled: timeouts, failures surfacing in the foreground part of async_take.")
 TECHNIQUE = "Lean 4 invariant proof over an executable transition system + trace-acceptance correspondence under a deterministic scheduler"
